@@ -454,7 +454,7 @@ def judge_value(m, e, ref, absmax):
         rf = dec_of_fraction(ref[k])
         if abs(val - rf) > tolabs:
             return "entry %d: mantissa*10^exponent = %s, exact = %s (tolerance %s)" % (
-                k, "%.12E" % val, "%.12E" % rf, "%.3E" % tolabs)
+                k, format(val, ".12E"), format(rf, ".12E"), format(tolabs, ".3E"))
     return None
 
 
@@ -771,7 +771,7 @@ def run_case(ctx, ci, rng, cases, records):
             for a, b, what in zip(fc, xc, ("max|left|", "max|right|", "factor")):
                 bf = dec_of_fraction(b.q)
                 if abs(Decimal(a) - bf) > RTOL * abs(bf):
-                    ctx.fail("float run step %d: %s = %r, exact run %s" % (k, what, a, "%.15E" % bf),
+                    ctx.fail("float run step %d: %s = %r, exact run %s" % (k, what, a, format(bf, ".15E")),
                              dict(rec, step=k), found_input=False)
                     return
         if not result_zero:
